@@ -74,7 +74,7 @@ type Case struct {
 	Reparse  bool     `json:"reparse,omitempty"`  // afterwards parse an empty command line on the same object (oracle)
 	PreEmpty bool     `json:"preempty,omitempty"` // Parse([]) on the object first (a two-phase parse); skipped (fresh object) when that fails
 	Twice    bool     `json:"twice,omitempty"`    // Parse + Dispatch a second time on the same object with the same arguments (oracle)
-	HelpSecs []int    `json:"helpsecs,omitempty"` // sections passed to Help(...): 2 name 3 synopsis 4 commands 5 options 6 info
+	HelpSecs []int    `json:"helpsecs,omitempty"` // sections passed to Help(...): 0 none 2 name 3 synopsis 4 commands 5 options 6 info
 	// completion request instead of parse
 	Comp     bool   `json:"comp,omitempty"`
 	Zsh      bool   `json:"zsh,omitempty"`
